@@ -139,18 +139,29 @@ func (s *slot) report(tag string) (interface{}, bool) {
 	if s.ver != 3 {
 		return nil, false
 	}
-	opt := report.WithOptionsLanguage(parseTag(tag))
+	opts := []report.ReportOptionsFunc{}
+	if tag != "-" { // "-": no language option at all (the documented default is English)
+		opts = append(opts, report.WithOptionsLanguage(parseTag(tag)))
+	}
 	switch s.level {
 	case "B":
-		return report.NewBase(s.b3, opt), true
+		return report.NewBase(s.b3, opts...), true
 	case "T":
-		return report.NewTemporal(s.t3, opt), true
+		return report.NewTemporal(s.t3, opts...), true
 	default:
-		return report.NewEnvironmental(s.e3, opt), true
+		return report.NewEnvironmental(s.e3, opts...), true
 	}
 }
 
-const fixedTemplate = "{{.Vector}}|{{.SeverityValue}}|{{.BaseScore}}"
+// the templates of X<i>,<k> (the Lean model holds the same list); 4 does not parse, 5 cannot be executed
+var histTemplates = []string{
+	"{{.Vector}}|{{.SeverityValue}}|{{.BaseScore}}",
+	"B {{.BaseScore}} S {{.SeverityName}}={{.SeverityValue}}",
+	"{{.Version}}:{{.AVName}}={{.AVValue}}",
+	"{{.BaseMetrics}}/{{.Vector}}/{{.Version}}",
+	"{{ .Version ",
+	"{{.NoSuchField}}",
+}
 
 func runHistory(h string) string { return runHistoryOn(nil, h) }
 
@@ -221,10 +232,19 @@ func runHistoryOn(shared []*slot, h string) string {
 				sort.Strings(fields)
 				return strings.Join(fields, "&")
 			case 'X':
-				s := get(op[1:])
+				a := strings.SplitN(op[1:], ",", 2)
+				s := get(a[0])
 				if s == nil {
 					return "bad"
 				}
+				k := 0
+				if len(a) == 2 {
+					k, _ = strconv.Atoi(a[1])
+				}
+				if k < 0 || k >= len(histTemplates) {
+					k = 4
+				}
+				tpl := histTemplates[k]
 				rep, ok := s.report("en")
 				if !ok {
 					return "noreport"
@@ -233,11 +253,11 @@ func runHistoryOn(shared []*slot, h string) string {
 				var err error
 				switch x := rep.(type) {
 				case *report.BaseReport:
-					r, err = x.ExportWithString(fixedTemplate)
+					r, err = x.ExportWithString(tpl)
 				case *report.TemporalReport:
-					r, err = x.ExportWithString(fixedTemplate)
+					r, err = x.ExportWith(strings.NewReader(tpl))
 				case *report.EnvironmentalReport:
-					r, err = x.ExportWithString(fixedTemplate)
+					r, err = x.ExportWithString(tpl)
 				}
 				return resTag(r, err)
 			}
